@@ -398,9 +398,9 @@ Definition hdestroy (m : hmap) : hmap :=
 Definition hiter (m : hmap) : list (K * Z) := map (fun e => (e_key e, e_val e)) (ents (h_bkts m)).
 
 (* iwhmap_iter_init / iwhmap_iter_next, step by step.  it_hm = (iter->hm != 0); it_cur = (iter->key, iter->val).
-   `guard` = false is the code; true is the variant that returns false when iter->bucket is already past the array.
-   In the code a call with iter->bucket >= n_buckets (the state left behind by the call that returned false) reads
-   `bucket->used` one element past the bucket array: it_fault. *)
+   `guard` = true is the code (since fix e161ae8: `if (!iter->hm || iter->bucket >= n_buckets) return false`); false is the code
+   BEFORE that fix: a call with iter->bucket >= n_buckets (the state left behind by the call that returned false) read
+   `bucket->used` one element past the bucket array: it_fault.  The old variant is kept for the refutation theorem. *)
 Record iter := mkIt { it_hm : bool; it_bucket : nat; it_entry : Z; it_cur : option (K * Z); it_fault : bool }.
 
 Definition iter_init (hm : bool) : iter := mkIt hm 0 (-1) None false.
@@ -447,7 +447,7 @@ Fixpoint iter_run (guard : bool) (fuel : nat) (m : hmap) (it : iter) : list (K *
 
 (* `hm iter` of the harness: init, then next until false (at most count + 1 calls are needed) *)
 Definition hiter_steps (m : hmap) : list (K * Z) * iter * nat :=
-  iter_run false (S (Z.to_nat (h_count m))) m (iter_init true).
+  iter_run true (S (Z.to_nat (h_count m))) m (iter_init true).
 
 (* forward walk of the LRU chain as the harness does it: keys, and whether prev links / last agree *)
 Fixpoint lru_walk (fuel : nat) (h : heap) (prev cur : option nat) : list K * bool * option nat :=
